@@ -4,7 +4,7 @@
 From Coq Require Import ZArith List Bool.
 From V.C03 Require Import PyAst PySem Cfg CfgSem Builder.
 Import ListNotations.
-Open Scope Z_scope.
+Local Open Scope Z_scope.
 
 Definition zn (n : nat) : Z := Z.of_nat n.
 Definition enc_unop (o : unop) : Z := match o with UNot => 0 | UNeg => 1 | UPos => 2 | UInvert => 3 end.
